@@ -61,6 +61,16 @@ func VerifRecordIO(on bool) {
 	verifIOLog = nil
 	// the hooks stay installed: they also feed the order trace (zz_verif_order.go)
 	verifHookIO = func(f *fileStore, kind string, off int64, b []byte) {
+		if kind == "page" && verifFailAt > 0 {
+			verifFailAt--
+			if verifFailAt == 0 {
+				// the write that follows this hook fails: the file is closed under it (reopened by VerifRepairFile)
+				f.file.Close()
+				verifFailedStore = f
+				verifOrderIO("pagefail", off, b)
+				return
+			}
+		}
 		verifOrderIO(kind, off, b)
 		verifIOMu.Lock()
 		if verifIOOn {
@@ -76,6 +86,50 @@ func VerifRecordIO(on bool) {
 		}
 		verifIOMu.Unlock()
 	}
+}
+
+// ---- write faults: the k-th page write from now fails with an I/O error
+
+var (
+	verifFailAt      int
+	verifFailedStore *fileStore
+)
+
+// VerifFailPageWrite makes the k-th page write from now fail (k >= 1); 0 switches the fault off.
+func VerifFailPageWrite(k int) { verifFailAt = k }
+
+// VerifRepairFile reopens the data file after an injected write fault; it reports whether a fault had struck.
+func VerifRepairFile() (bool, error) {
+	verifFailAt = 0
+	f := verifFailedStore
+	if f == nil {
+		return false, nil
+	}
+	verifFailedStore = nil
+	nf, err := os.OpenFile(f.file.Name(), os.O_RDWR, 0644)
+	if err != nil {
+		return true, err
+	}
+	f.file = nf
+	return true, nil
+}
+
+// VerifEvictClean removes every clean page from the cache (what an LRU under pressure is entitled to do) and
+// returns how many went.
+func VerifEvictClean(rs *RelationService) int {
+	c := rs.fs.cache
+	n := 0
+	for e := c.list.Front(); e != nil; {
+		next := e.Next()
+		ce := e.Value.(*cacheEntry)
+		if !ce.val.isDirty() {
+			c.list.Remove(e)
+			delete(c.cache, ce.key)
+			n++
+		}
+		e = next
+	}
+	return n
 }
 
 // VerifTakeIO returns and clears the recorded writes.
